@@ -34,6 +34,13 @@ def run(tier):
             pr.append(c)
         pairs.append(pr)
 
+    for k in range(40 if tier == "quick" else 1500):
+        sc = gen.gen_oneshot_burst(seed * 1000 + k)
+        for m in ("loop", "dispatch"):
+            c = cc.Case()
+            c.sc, c.profile, c.mode, c.seed = sc, "oneshot_burst", m, seed * 1000 + k
+            cases.append(c)
+
     def oracle(case):
         return model_events.check_c03(case, stats, conservation=(case.profile == "sources"))
 
